@@ -189,7 +189,7 @@ class DocEngine:
                 # an I/O error in the middle of a lazy load
                 op["fault"] = {"site": rng.choice(["zip_read", "read_bytes", "zip_open_r"], "rfsite"), "k": 1, "errno": rng.choice(["EIO", "EACCES"], "rferr")}
         elif name == "edit":
-            op["kind"] = rng.choice(["para", "heading", "list", "table", "image", "meta_title", "meta_user", "meta_keyword", "style", "delete_last"] + (["numlist", "numlist"] if self.prop == "C15" else []), "ekind")
+            op["kind"] = rng.choice(["para", "heading", "list", "table", "image", "meta_title", "meta_user", "meta_keyword", "style", "delete_last"] + (["numlist", "numlist", "foreign_named_range"] if self.prop == "C15" else []), "ekind")
             op["n"] = n
             subs = sorted(x for x in st.names() if "/" in x and x.rsplit("/", 1)[-1] in ("content.xml", "styles.xml") and not x.startswith("META-INF"))
             if subs and rng.chance(0.5, "subobj?"):
@@ -300,7 +300,7 @@ class DocEngine:
         def inline(depth):
             k = rng.weighted([("text", 6), ("s", 3), ("s2", 2), ("tab", 3), ("lb", 3), ("span", 3 if depth < 2 else 0), ("a", 2 if depth < 2 else 0),
                               ("note", 1.5 if depth == 0 else 0), ("frame", 1 if depth == 0 else 0), ("bookmark", 1.5), ("annotation", 1 if depth == 0 else 0),
-                              ("refmark", 1), ("pagenum", 1), ("softbreak", 0.5)], "inl")
+                              ("refmark", 1), ("pagenum", 1), ("softbreak", 0.5), ("varset", 1 if self.prop == "C15" else 0)], "inl")
             if k == "text":
                 w = rng.choice(words, "w")
                 return w + (" " if rng.chance(0.5, "sp") else "")
@@ -317,8 +317,11 @@ class DocEngine:
             if k == "a":
                 return '<text:a xlink:type="simple" xlink:href="http://example.com/">' + "".join(inline(depth + 1) for _ in range(rng.randint(1, 2, "na"))) + "</text:a>"
             if k == "note":
-                return ('<text:note text:id="ftn%d" text:note-class="footnote"><text:note-citation>%d</text:note-citation><text:note-body>'
-                        '<text:p text:style-name="Footnote">note %d<text:tab/>body</text:p></text:note-body></text:note>' % (n, n, n))
+                cit = "<text:note-citation>%d</text:note-citation>" % n if rng.chance(0.6, "citation?") else "<text:note-citation/>"  # (automatic numbering: no citation text)
+                return ('<text:note text:id="ftn%d" text:note-class="footnote">%s<text:note-body>'
+                        '<text:p text:style-name="Footnote">note %d<text:tab/>body</text:p></text:note-body></text:note>' % (n, cit, n))
+            if k == "varset":
+                return '<text:variable-set text:name="var%d" office:value-type="float" office:value="%d">%d</text:variable-set>' % (n % 3, n, n)
             if k == "frame":
                 return ('<draw:frame draw:name="fr%d" text:anchor-type="as-char" svg:width="2cm" svg:height="1cm"><draw:text-box>'
                         '<text:p>in frame<text:s/>%d</text:p></draw:text-box></draw:frame>' % (n, n))
@@ -730,6 +733,21 @@ class DocEngine:
         dtype = self._doc_type()
 
         def do():
+            if kind == "foreign_named_range":
+                # a named range as another producer spells it (quoted sheet name, absolute
+                # references, a one-cell range written A1:.A1, base cell elsewhere)
+                from odfdo import Element as _E
+                if dtype != "spreadsheet":
+                    return "content.xml"
+                body = doc.body
+                cont = body.get_element("table:named-expressions")
+                if cont is None:
+                    cont = _E.from_tag("<table:named-expressions/>")
+                    body.append(cont)
+                tname = (body.get_tables()[0].name if body.get_tables() else "Sheet1")
+                q = "'" + tname + "'" if n % 2 else tname
+                cont.append(_E.from_tag(f'<table:named-range table:name="fnr{n}" table:base-cell-address="${q}.$C$3" table:cell-range-address="${q}.$A$1:.$A$1"/>'))
+                return "content.xml"
             if kind == "numlist":
                 # a numbered list whose numbering comes from styles of this very document
                 from odfdo import Element as _E, ListItem as _LI
